@@ -75,6 +75,8 @@ structure Sender where
   inMsg : Bool := false
   /-- bytes of the open message handed over so far (ghost) -/
   acc : Bytes := []
+  /-- bytes of the open message already emitted in frames (ghost) -/
+  sent : Bytes := []
   cur : Option Xfer := none
   /-- the sender handle was dropped -/
   dropped : Bool := false
@@ -184,6 +186,10 @@ def Frame.oversize (c : Cfg) : Frame → Bool
   | .ports ids _ _ => decide (4 * ids.length > c.chunk)
   | .finish => false
 
+def Frame.payload : Frame → Bytes
+  | .data p _ _ => p
+  | _ => []
+
 def Frame.isLast : Frame → Bool
   | .data _ _ l => l
   | .ports _ _ l => l
@@ -221,36 +227,62 @@ def nextMsg (r : Receiver) : Option (Frame × Receiver) :=
     | [] => none
     | f :: q => some (f, { r with portq := q })
 
+/-- `recv_any` processing one message taken from the queue: new reassembly state and the value
+returned to the caller, if the call returns. -/
+def anyFrame (c : Cfg) (recving : Receiving) : Frame → Receiving × Option Out
+  | .data p first last =>
+    match (if first then Receiving.data [] else recving) with
+    | .data bufs =>
+      if bufs.flatten.length + p.length ≤ c.maxData then
+        if last then (.nothing, some (.data (bufs ++ [p]).flatten)) else (.data (bufs ++ [p]), none)
+      else (.chunks (bufs ++ [p]) last, some .chunksStart)
+    | _ => (.nothing, none)
+  | .ports ids first last =>
+    match (if first then Receiving.requests [] else recving) with
+    | .requests acc =>
+      if (acc ++ ids).length > c.maxPorts then (.nothing, some .tooManyPorts)
+      else if last then (.nothing, some (.requests (acc ++ ids))) else (.requests (acc ++ ids), none)
+    | _ => (.nothing, none)
+  | .finish => (recving, some .eos)
+
+def Frame.isFinish : Frame → Bool
+  | .finish => true
+  | _ => false
+
+/-- `start_return` for a processed message (`Finished` carries no credit). -/
+def returnFor (limit : Nat) (r : Receiver) (f : Frame) : Receiver × List Back :=
+  if f.isFinish then (r, []) else returnCredits limit r f.cost
+
 /-- One message-taking iteration of `recv_any`.  Returns the receiver, the credit frames to send
 back, the consumed frame and the value returned to the caller (if the call returns). -/
 def recvAnyStep (c : Cfg) (r : Receiver) : Option (Receiver × List Back × Frame × Option Out) :=
   if r.finished then none else
   match nextMsg r with
   | none => none
-  | some (f, r) =>
-    match f with
-    | .data p first last =>
-      let (r, bk) := returnCredits c.limit r f.cost
-      let recving := if first then Receiving.data [] else r.receiving
-      match recving with
-      | .data bufs =>
-        if bufs.flatten.length + p.length ≤ c.maxData then
-          if last then some ({ r with receiving := .nothing }, bk, f, some (.data (bufs ++ [p]).flatten))
-          else some ({ r with receiving := .data (bufs ++ [p]) }, bk, f, none)
-        else
-          some ({ r with receiving := .chunks (bufs ++ [p]) last }, bk, f, some .chunksStart)
-      | _ => some ({ r with receiving := .nothing }, bk, f, none)
-    | .ports ids first last =>
-      let (r, bk) := returnCredits c.limit r f.cost
-      let recving := if first then Receiving.requests [] else r.receiving
-      match recving with
-      | .requests acc =>
-        if (acc ++ ids).length > c.maxPorts then
-          some ({ r with receiving := .nothing }, bk, f, some .tooManyPorts)
-        else if last then some ({ r with receiving := .nothing }, bk, f, some (.requests (acc ++ ids)))
-        else some ({ r with receiving := .requests (acc ++ ids) }, bk, f, none)
-      | _ => some ({ r with receiving := .nothing }, bk, f, none)
-    | .finish => some ({ r with finished := true }, [], f, some .eos)
+  | some (f, r0) =>
+    let rb := returnFor c.limit r0 f
+    let ro := anyFrame c r0.receiving f
+    some ({ rb.1 with receiving := ro.1, finished := f.isFinish }, rb.2, f, ro.2)
+
+/-- What `recv_chunk` does with the next message when no buffered chunk is left. -/
+inductive ChunkAct where
+  /-- the message signals that the transmission was cancelled: it is put back (repair F1) -/
+  | putBack
+  /-- the message is consumed; `recving`: new reassembly state if it changes -/
+  | consume (recving : Option Receiving) (out : Option Out)
+deriving Repr, DecidableEq
+
+def chunkFrame (inChunks : Bool) : Frame → ChunkAct
+  | .data p first last =>
+    if inChunks && first then .putBack
+    else if inChunks || first then .consume (some (.chunks [] last)) (some (.chunk p))
+    else .consume none none
+  | .ports _ _ _ => if inChunks then .putBack else .consume none none
+  | .finish => if inChunks then .consume (some .nothing) (some .cancelled) else .consume none (some .eos)
+
+def Receiving.inChunks : Receiving → Bool
+  | .chunks _ _ => true
+  | _ => false
 
 /-- One iteration of `recv_chunk`.  `none` for the consumed frame means no frame was taken
 (buffered chunk returned, end of message, or the frame was put back). -/
@@ -260,29 +292,15 @@ def recvChunkStep (c : Cfg) (r : Receiver) : Option (Receiver × List Back × Op
   | .chunks (ch :: rest) completed => some ({ r with receiving := .chunks rest completed }, [], none, some (.chunk ch))
   | .chunks [] true => some ({ r with receiving := .nothing }, [], none, some .chunkEnd)
   | recving =>
-    let inChunks := match recving with | .chunks _ _ => true | _ => false
     match nextMsg r with
     | none => none
-    | some (f, r') =>
-      match f with
-      | .data p first last =>
-        if inChunks && first then
-          -- cancellation: the frame belongs to the next message and is put back
-          some ({ r with unprocessed := some f, portq := r'.portq, receiving := .nothing }, [], none, some .cancelled)
-        else
-          let (r', bk) := returnCredits c.limit r' f.cost
-          if inChunks || first then
-            some ({ r' with receiving := .chunks [] last }, bk, some f, some (.chunk p))
-          else some (r', bk, some f, none)
-      | .ports _ _ _ =>
-        if inChunks then
-          some ({ r with unprocessed := some f, portq := r'.portq, receiving := .nothing }, [], none, some .cancelled)
-        else
-          let (r', bk) := returnCredits c.limit r' f.cost
-          some (r', bk, some f, none)
-      | .finish =>
-        if inChunks then some ({ r' with finished := true, receiving := .nothing }, [], some f, some .cancelled)
-        else some ({ r' with finished := true }, [], some f, some .eos)
+    | some (f, r0) =>
+      match chunkFrame recving.inChunks f with
+      | .putBack =>
+        some ({ r with unprocessed := some f, portq := r0.portq, receiving := .nothing }, [], none, some .cancelled)
+      | .consume rec' out =>
+        let rb := returnFor c.limit r0 f
+        some ({ rb.1 with receiving := rec'.getD recving, finished := f.isFinish }, rb.2, some f, out)
 
 /-- May the sender obtain credits?  (`override_graceful_close` is not modelled: default false.) -/
 def Sender.open (s : Sender) : Bool := s.closed.isNone
@@ -290,11 +308,11 @@ def Sender.open (s : Sender) : Bool := s.closed.isNone
 def step (c : Cfg) (st : State) : Label → Option State
   | .startSend d =>
     if st.s.cur.isNone ∧ ¬ st.s.inMsg ∧ ¬ st.s.dropped then
-      some { st with s := { st.s with cur := some (.bytes d d.isEmpty true), first := true, acc := d } }
+      some { st with s := { st.s with cur := some (.bytes d d.isEmpty true), first := true, acc := d, sent := [] } }
     else none
   | .startChunks =>
     if st.s.cur.isNone ∧ ¬ st.s.inMsg ∧ ¬ st.s.dropped then
-      some { st with s := { st.s with inMsg := true, first := true, acc := [] } }
+      some { st with s := { st.s with inMsg := true, first := true, acc := [], sent := [] } }
     else none
   | .chunkSend d fin =>
     if st.s.cur.isNone ∧ st.s.inMsg then
@@ -302,7 +320,7 @@ def step (c : Cfg) (st : State) : Label → Option State
     else none
   | .startConnect ids =>
     if st.s.cur.isNone ∧ ¬ st.s.inMsg ∧ ¬ st.s.dropped ∧ ids ≠ [] then
-      some { st with s := { st.s with cur := some (.portReqs ids), first := true, acc := [] } }
+      some { st with s := { st.s with cur := some (.portReqs ids), first := true, acc := [], sent := [] } }
     else none
   | .cancel =>
     -- dropping the future / the ChunkSender returns the assigned credits (AssignedCredits::drop)
@@ -346,17 +364,17 @@ def step (c : Cfg) (st : State) : Label → Option State
         let held := st.s.held - f.cost
         if x'.isSome then
           some { st with chan := st.chan ++ [f], emitted := st.emitted ++ [f],
-                         s := { st.s with cur := x', held := held, first := false } }
+                         s := { st.s with cur := x', held := held, first := false, sent := st.s.sent ++ f.payload } }
         else if f.isLast then
           -- the call returns and the message is complete: remaining credits drop back into the pool
           some { st with chan := st.chan ++ [f], emitted := st.emitted ++ [f],
                          s := { st.s with cur := none, inMsg := false, pool := st.s.pool + held, held := 0,
-                                          first := true, acc := [] },
+                                          first := true, acc := [], sent := [] },
                          completed := st.completed ++ x.msgs st.s.acc }
         else
           -- non-final chunk of a streamed message: the ChunkSender keeps its credits
           some { st with chan := st.chan ++ [f], emitted := st.emitted ++ [f],
-                         s := { st.s with cur := none, held := held, first := false } }
+                         s := { st.s with cur := none, held := held, first := false, sent := st.s.sent ++ f.payload } }
       else none
   | .provide =>
     match st.back with
@@ -429,7 +447,7 @@ def parseStep (cur : Option Bytes) : Frame → Option Bytes × Option Bytes
     | none => (none, none)                              -- continuation without a start: ignored
     | some b => if last then (none, some b) else (some b, none)
   | .ports _ _ _ => (none, none)                        -- a port batch aborts a partial data message
-  | .finish => (none, none)
+  | .finish => (none, none)                             -- nothing follows `SendFinish`
 
 /-- Messages carried by a frame list, starting from buffer `cur`. -/
 def parse : Option Bytes → List Frame → List Bytes
